@@ -13,6 +13,7 @@ import Psa.Cbor.Consumes
 import Psa.Cbor.FuelFree
 import Psa.Tie.Encoding
 import Psa.Tie.Facts.Alloc
+import Psa.Proofs.JsonTokens
 namespace Psa.Props.C06
 open Psa Psa.Model Psa.Model.Enc Psa.Proofs.Enc
 
@@ -67,8 +68,32 @@ theorem no_allocation_sized_from_input : Generated.Facts.sizedMakes =
     [("psatoken", "SwComponents.Values", "len(o.values)"), ("psatoken", "validateAndConvert", "len(vals)")] :=
   Tie.Facts.sized_makes
 
+/-! ### the hand-written JSON token walk (`unmarshalKeys`, recursive `skipValue`) -/
+
+/-- **the recursive walk terminates on every token stream**, well-formed or not: with fuel `2·len + 1` (resp. `+ 2`
+    for the inner loop) the model never runs out of fuel — the fuel is not what stops it -/
+theorem json_skip_terminates (ts : List JTok.Tok) (f : Nat) :
+    (2 * ts.length + 1 ≤ f → JTok.skipValue f ts ≠ .fuel) ∧ (2 * ts.length + 2 ≤ f → JTok.skipLoop f ts ≠ .fuel) :=
+  Proofs.JTok.skip_fuel_enough f ts
+
+/-- … and the result does not depend on the fuel -/
+theorem json_skip_fuel_irrelevant (ts : List JTok.Tok) (f : Nat) (hf : 2 * ts.length + 1 ≤ f) :
+    JTok.skipValue f ts = JTok.skipValue (2 * ts.length + 1) ts :=
+  Proofs.JTok.skip_fuel_irrelevant ts f hf
+
+/-- every successful `skipValue` has read at least one token: the key loop of `unmarshalKeys` makes progress -/
+theorem json_skip_consumes (f : Nat) (ts r : List JTok.Tok) :
+    (JTok.skipValue f ts = .ok r → r.length < ts.length) ∧ (JTok.skipValue f ts = .eos r → r.length < ts.length) :=
+  ⟨(Proofs.JTok.skip_consumes f ts).1 r, (Proofs.JTok.skip_consumes f ts).2.1 r⟩
+
+/-- `unmarshalKeys` returns on every token stream -/
+theorem json_key_pass_terminates (ts : List JTok.Tok) : JTok.unmarshalKeys ts ≠ .fuel :=
+  Proofs.JTok.unmarshalKeys_total ts
+
 -- non-vacuity: the hostile header `ba ff ff ff ff` (2³²−1 entries, no data) is an error, `a0` is the empty map
 example : fromCBOR [0xba, 0xff, 0xff, 0xff, 0xff] = .err eOther := by decide
 example : fromCBOR [0xa0] = .ok OMap.empty := by decide
+example : JTok.skipValue 11 [.arrOpen, .objOpen, .arrClose, .objClose, .num] = .ok [.num] := by decide  -- closers are not matched
+example : JTok.skipValue 7 [.arrOpen, .arrOpen, .arrOpen] = .err := by decide
 
 end Psa.Props.C06
